@@ -688,6 +688,9 @@ def as_strided(it, args, kw):
     st = [_int(s) for s in strides]
     if len(shape) != 2:
         raise Undecided("as_strided rank")
+    if shape[0] < 0 or shape[1] < 0:
+        # a window longer than the data: numpy raises, numba's compiled version reads arbitrary memory
+        raise Undecided("as_strided with a negative shape (the window is longer than the data): undefined behaviour in a compiled kernel")
     item = 8
     s0, s1 = st[0] // item, st[1] // item
     rows = []
